@@ -23,7 +23,8 @@ CHECKS.update({
  "C10": dict(level="exploration", engine="enumeration", design="3/C10",
    technique="complete enumeration of codes -200..999 x presence of primal/dual/objective through the real backend, against the documented range table",
    text="The six range predicates are evaluated for all 1200 codes (exhaustive) and 9600 full driver runs with a scripted solver check the "
-        "solve message ('objective' iff a solution candidate is indicated and supplied), the code echoed in the .sol file and the -! table.",
+        "solve message ('objective' iff a solution candidate is indicated and supplied), the code echoed in the .sol file and the -! table; "
+        "1200 further runs end through StdBackend::Abort(code, text) and must carry that code (judged from 100 up).",
    note="range table transcribed from doc/source/features-guide.rst; 100-199 treated as don't-care for the objective clause"),
  "C12": dict(level="exploration", engine="hypothesis+z3", design="3/C12",
    technique="Hypothesis-generated multi-objective NL files x objno x multiobj x text/binary; delivered objectives compared as functions (z3) with the selected NL objectives",
